@@ -44,7 +44,7 @@ func newMatcher(x *explore.X, items []ruleset.RegexpListItem, strs []string) (m 
 
 func TestC17(t *testing.T) {
 	s := explore.NewSuite(t, "C17", "exploration",
-		"every ordered list of <=L rules (L=2 quick, 3 thorough; plus L=4 over a 6-rule sub-alphabet in thorough) drawn from 25 regular expressions (incl. \\Q quoting, terminated and not, and a rule beginning with a literal dash) x {include, exclude}, each evaluated on 29 host strings through ruleset.ParseRegexpListItem + NewRegexpMatcherFromList (+Inverse) and compared with a reference that evaluates every rule on its own with package regexp; plus (list-lengths) every list of 1-40 include rules and 0-40 exclude rules, each rule matching exactly one host, checked on 42 hosts; plus (concurrent-matchers, Engine T) one matcher and its inverse used by two threads at once for 4x4 hosts over 3 lists, ruleset/regexp.go rebuilt with a scheduling point before every statement, every interleaving with at most 2 (quick) / 3 (thorough) preemptions, verdicts of the two callers and of every later sequential caller compared with the per-rule reference; plus (aged-matcher) every include rule x optional exclude rule on ONE matcher: the host alphabet, then N distinct other hosts (N in {300, 1100}, thorough also 4200 and 70000), then the alphabet forwards and backwards, every answer and its inverse compared with the memoryless reference; plus (rules-from-every-source) lists of 1-3 rules out of 5 (three of them containing a comma) given as one CSV flag value, as repeated flags and as a YAML list in a configuration file bound through cobrautil: the rules that arrive are the rules that were written; non-trivial = the list has at least one include rule so a matcher is built and compared")
+		"every ordered list of <=L rules (L=2 quick, 3 thorough; plus L=4 over a 6-rule sub-alphabet in thorough) drawn from 25 regular expressions (incl. \\Q quoting, terminated and not, and a rule beginning with a literal dash) x {include, exclude}, each evaluated on 29 host strings through ruleset.ParseRegexpListItem + NewRegexpMatcherFromList (+Inverse) and compared with a reference that evaluates every rule on its own with package regexp; plus (list-lengths) every list of 1-40 include rules and 0-40 exclude rules, each rule matching exactly one host, checked on 42 hosts; plus (concurrent-matchers, Engine T) one matcher and its inverse used by two threads at once for 4x4 hosts over 3 lists, ruleset/regexp.go rebuilt with a scheduling point before every statement, every interleaving with at most 2 (quick) / 3 (thorough) preemptions, verdicts of the two callers and of every later sequential caller compared with the per-rule reference; plus (aged-matcher) every include rule x optional exclude rule on ONE matcher: the host alphabet, then N distinct other hosts (N in {300, 1100}, thorough also 4200 and 70000), then the alphabet forwards and backwards, every answer and its inverse compared with the memoryless reference; plus (rules-from-every-source) lists of 1-3 rules out of 5 (three of them containing a comma) given as one CSV flag value, as repeated flags and as a YAML list in a configuration file bound through cobrautil: the rules that arrive are the rules that were written; non-trivial = the list has at least one include rule so a matcher is built and compared; (several-lists, round 9) --deny-domains, --direct-domains and --mitm-domains of ONE command line / configuration file, each a list of 0-2 items out of {X, -X, Y, -Y}, in both orders, through bind + cobrautil: every item arrives in its own list with its own polarity")
 	s.Assume = []string{"package regexp (used for the per-rule reference) is trusted"}
 	compiled := make([]*regexp.Regexp, len(rules))
 	for i, r := range rules {
